@@ -36,7 +36,7 @@ package cache
 //@ spec func lifetime(rc int, na int, mt int) int = ite(rc == 3, 30, ite(rc == 2, 5, ite(rc == 0, ite(na == 0, ite(mt < 300, mt, 300), mt), 0)))
 
 //@ func saveRespToCache [C05, C10]
-//@   requires r != nil && backend != nil
+//@   requires r != nil && backend != nil && wfMsg(r)
 //@   modifies *
 //@   requires lazyCacheTtl <= 9223372036
 //@   ensures old(r.Truncated) ==> !result
